@@ -53,10 +53,47 @@ def plan(tier, seed):
                   level=pick(rng, [None, None, 1, 2, 3]),
                   dt=pick(rng, ["complex128", "float64"]), via=pick(rng, ["linop", "linop",
                                                                           "func"]))
+    # histories: several operators for the same (shape, wavelet, level) but different axes in
+    # one process, in random order - anything the library remembers between calls (shape or
+    # slice layouts) must be keyed by all of the parameters
+    for i in range(60 if quick else 900):
+        nd = int(pick(rng, [2, 2, 3]))
+        lim = [0, 12, 7][nd - 1] if quick else [0, 16, 8][nd - 1]
+        shape = [int(rng.integers(2, lim + 1)) for _ in range(nd)]
+        variants = [None]
+        for k in range(3):
+            kk = int(rng.integers(1, nd + 1))
+            ax = sorted(rng.choice(nd, size=kk, replace=False).tolist())
+            variants.append([int(a - nd) if rng.random() < 0.4 else int(a) for a in ax])
+        order = [int(v) for v in rng.permutation(len(variants))]
+        P.add("wav-history", name=pick(rng, ["haar", "db2", "db4", "sym4", "coif1"]),
+              shape=shape, variants=[variants[j] for j in order],
+              level=pick(rng, [None, None, 1, 2]), dt=pick(rng, ["complex128", "float64"]),
+              via="linop")
     return P.cases
 
 
 def run_case(case):
+    if case["gen"] == "wav-history":
+        last = None
+        n = 0
+        for axes in case["variants"] + case["variants"][:1]:
+            c = dict(case, axes=axes)
+            r = run_one(c)
+            n += r.get("checks", 0)
+            if r["verdict"] != "held":
+                r["why"] = "after operators with other axes were built in this process: " + \
+                    r.get("why", "")
+                r["sig"] = "history|" + r.get("sig", "")
+                return r
+            last = r
+        last["sig"] = "history|%s|%dd|%s" % (case["name"], len(case["shape"]), case["level"])
+        last["checks"] = n
+        return last
+    return run_one(case)
+
+
+def run_one(case):
     import warnings
     import pywt
     import sigpy as sp
